@@ -78,9 +78,9 @@ type Region struct {
 }
 
 const (
-	localBlkLimit  = 0x200000 // root blocks are multiples of 64: locals and spec temporaries below this
-	globalBlkBase  = 0x8000   // (n << 6)
-	paramBlkBase   = 0x400000
+	localBlkLimit  = 0x8000000 // root blocks are multiples of 4096: locals and spec temporaries below this
+	globalBlkBase  = 0x8000    // (n << 12)
+	paramBlkBase   = 0x10000000
 )
 
 type Exec struct {
@@ -145,6 +145,21 @@ type unsupported struct{ msg string }
 
 func (x *Exec) fail(format string, a ...interface{}) {
 	panic(unsupported{fmt.Sprintf(format, a...)})
+}
+
+func (r Region) tagSet() []int {
+	seen := map[int]bool{}
+	var out []int
+	for _, t := range r.Tags {
+		if !seen[t] {
+			seen[t] = true
+			out = append(out, t)
+		}
+	}
+	if len(out) == 0 {
+		out = []int{0}
+	}
+	return out
 }
 
 func heapSort(s *Sort) *Sort { return ArrS(BV32, ArrS(BV64, s)) }
@@ -331,7 +346,7 @@ func (x *Exec) inRegions(blk, off *Term, n int) *Term {
 		last := BVAdd(off, BV(int64(n-1), 64))
 		end := BVAdd(r.Off, r.N)
 		var bs []*Term
-		for t := 0; t <= r.MaxTag; t++ {
+		for _, t := range r.tagSet() {
 			bs = append(bs, Eq(blk, BVAdd(r.Blk, BV(int64(t), 32))))
 		}
 		alts = append(alts, And(Or(bs...), ULE(r.Off, off), ULT(off, end), ULE(r.Off, last), ULT(last, end)))
@@ -502,7 +517,7 @@ func (x *Exec) normPtrs(st *State, t types.Type, c []*Term) []*Term {
 func (x *Exec) newBlk() int {
 	if x.initMode {
 		x.nextInit++
-		return (globalBlkBase + 0x1000 + x.nextInit) << 6
+		return (globalBlkBase + 0x1000 + x.nextInit) << 12
 	}
 	if x.spec > 0 {
 		x.nextTmp++
@@ -510,13 +525,13 @@ func (x *Exec) newBlk() int {
 			// wrap: temporaries of finished spec evaluations are dead
 			x.nextTmp = 1
 		}
-		return (0x4000 + x.nextTmp) << 6
+		return (0x4000 + x.nextTmp) << 12
 	}
 	x.nextBlk++
 	if x.nextBlk >= 0x4000 {
 		x.fail("too many local blocks")
 	}
-	return x.nextBlk << 6
+	return x.nextBlk << 12
 }
 
 // constant byte data (string literals) live in read-only local-range blocks of the SMT heap
@@ -1004,7 +1019,7 @@ func (x *Exec) globalBlk(g *ssa.Global) int {
 	if id, ok := x.globals[g]; ok {
 		return id
 	}
-	id := (globalBlkBase + len(x.globals) + 1) << 6
+	id := (globalBlkBase + len(x.globals) + 1) << 12
 	x.globals[g] = id
 	return id
 }
@@ -1095,7 +1110,7 @@ func (x *Exec) instr(fr *Frame, st *State, instr ssa.Instruction) {
 		stt := i.X.Type().Underlying().(*types.Pointer).Elem().Underlying().(*types.Struct)
 		x.obligeNonNil(st, p.C[0], i.Pos())
 		fblk := p.C[0]
-		if _, isArr := stt.Field(i.Field).Type().Underlying().(*types.Array); isArr {
+		if ownBlock(stt.Field(i.Field).Type()) {
 			fblk = BVAdd(fblk, BV(int64(fieldTag(i.X.Type().Underlying().(*types.Pointer).Elem(), i.Field)), 32))
 		}
 		fr.vals[i] = Val{C: []*Term{fblk, BVAdd(p.C[1], BV(int64(fieldMemOffset(stt, i.Field)), 64))}}
